@@ -3,6 +3,7 @@ package psim
 import (
 	"fmt"
 	"os"
+	"path"
 	"time"
 )
 
@@ -68,9 +69,7 @@ func c11Stale(c *Ctx) {
 	}
 	j := cands[c.Plan.Draw(len(cands))]
 	end := staleEnds[c.Plan.Draw(len(staleEnds))]
-	// (experiment, off by default: on the unchanged tree some of these runs end in ways
-	// that were not triaged - DESIGN.md section 12, C11-l)
-	lingers := os.Getenv("VERIF_C11_LINGERS") != ""
+	lingers := c.Plan.Draw(4) == 0 || os.Getenv("VERIF_C11_LINGERS") != ""
 	if lingers {
 		// the given-up attempt comes back and carries on for hours, heartbeats and all,
 		// while its replacement hangs without a sign of life: the old attempt's
@@ -95,8 +94,29 @@ func c11Stale(c *Ctx) {
 	cfg.JobFaults = map[string]string{key + "#1": end}
 	if lingers {
 		cfg.JobFaults[key+"#2"] = "hang-silent"
+		// room for three attempts side by side: mrp does not kill a local job it has
+		// given up, and its process keeps its cores and memory until it exits
+		cfg.Flags = []string{"--localcores=4", "--localmem=8", "--vdrmode=disable", "--autoretry=2"}
 	}
-	r := c.RunOnce(cfg, nil)
+	var givenUpAfter time.Duration // how long after its start mrp declared the silent replacement dead
+	var setup func(r *Run)
+	if lingers {
+		setup = func(r *Run) {
+			r.StepHooks = append(r.StepHooks, func() {
+				if givenUpAfter != 0 {
+					return
+				}
+				for _, o := range r.Jobs {
+					if o.Fault == "hang-silent" && o.Key() == j.Key() && o.Phase == j.Phase {
+						if _, err := os.Stat(path.Join(o.MetaPath, "_errors")); err == nil {
+							givenUpAfter = time.Since(r.Start) - o.StartAt
+						}
+					}
+				}
+			})
+		}
+	}
+	r := c.RunOnce(cfg, setup)
 	c.Res.Class = "stale-checked"
 	returned := r.Faults["stale-attempt-returned:"+end] > 0
 	c.Res.Nontrivial = returned
@@ -123,10 +143,13 @@ func c11Stale(c *Ctx) {
 		}
 		if a2 != nil && a2.Fault == "hang-silent" {
 			c.Res.Probes["silent-replacement-next-to-lingering-attempt"]++
-			if a3 == nil {
-				add("silent-attempt-kept-alive-by-foreign-heartbeats", fmt.Sprintf("the replacement (attempt 2) hung without a sign of life and was never given up (run ended %s)", r.Class()))
-			} else if d := a3.StartAt - a2.StartAt; d > 120*time.Minute {
-				add("silent-attempt-kept-alive-by-foreign-heartbeats", fmt.Sprintf("the replacement (attempt 2) hung without a sign of life; mrp gave it up only after %v (heartbeat timeout: 60 minutes, checked every few minutes) - as long as attempt 1 kept writing heartbeats under its own uniquifier", d))
+			_ = a3
+			if givenUpAfter == 0 {
+				if r.Class() != "step-budget" {
+					add("silent-attempt-kept-alive-by-foreign-heartbeats", fmt.Sprintf("the replacement (attempt 2) hung without a sign of life and was never given up (run ended %s)", r.Class()))
+				}
+			} else if givenUpAfter > 150*time.Minute {
+				add("silent-attempt-kept-alive-by-foreign-heartbeats", fmt.Sprintf("the replacement (attempt 2) hung without a sign of life; mrp gave it up only %v after its start (heartbeat timeout: 60 minutes) - as long as attempt 1 kept writing heartbeats under its own uniquifier", givenUpAfter))
 			}
 		}
 	}
